@@ -284,7 +284,7 @@ func closurePassedTo(fn *ssa.Function, names ...string) (string, bool) {
 			return
 		}
 		for _, a := range ci.Common().Args {
-			if mc, ok := a.(*ssa.MakeClosure); ok && mc.Fn == fn {
+			if mc, ok := unwrapConv(a).(*ssa.MakeClosure); ok && mc.Fn == fn {
 				res = n
 			}
 		}
